@@ -41,6 +41,8 @@ GNext == \E i \in Slots :
         Ack(i, src, "t", c) /\ Rec(5, i, "ack", "t", src, "-", <<"-", 0>>, c)
    \/ \E v \in {"t", "f", "eof"} :
         Ack(i, 0, v, FALSE) /\ Rec(5, i, "ack", v, 0, "-", <<"-", 0>>, FALSE)
+   \* a session nothing can be delivered to any more is dropped (its stream ends)
+   \/ ~CanDeliver(i) /\ Drop(i) /\ Rec(6, i, "drop", "-", 0, "-", <<"-", 0>>, FALSE)
 GSpec == GInit /\ [][GNext]_gvars
 
 AllTerminal == \A i \in Slots : ~Live(i)
